@@ -26,6 +26,7 @@ Case:
                 "items": [[DIR or file index, HOW, TYP], ...]}    in this order; may repeat an element in several spellings; the lookups may
                                                                   also name the root(s), which belong to the lookup set anyway
          HOW = "abs" | "slash" | "dotdot" | "link" | "rel" (relative to the MIX's working directory, may start with ..) | "rellink"
+               | "name" (roots only: the bare name, next to a path of the same root) | "relroot" (targets only: <root name>/<sub>/<file>)
          TYP = "str" | "path"
   TEXT = {"g": bool (text does not parse), "gk": int, "secs": [{"stmts": [STMT..], "mode": MODE}] (two = service),
           "u": 1 | 2 | 3 (optional, with "g": true: the file cannot even be loaded - bytes that are not UTF-8, a truncated multi-byte
@@ -51,7 +52,10 @@ gen_two_trees (several trees of one root namespace name holding the same relativ
 in and around them), gen_history (call sequences), gen_perturb (C19), gen_samedir_twins (two files of one directory tree with one
 name and version, and references to them: C09), gen_rollover (versions at the ends of the range in pairs that lossy sort keys cannot tell
 apart - x.255 / (x+1).0 -, under several hash seeds: C10), ext_combo_name (file names with doubled / mixed / foreign extensions: C15),
-gen_mentions (definitions that merely MENTION others in comments and string literals: C19, C10).
+gen_mentions (definitions that merely MENTION others in comments and string literals: C19, C10), gen_outofrange (version numbers beyond
+255 in references and in the names of unreferenced files, equal to legal versions under lossy encodings of the pair: C09, C19), SIZE as a state
+of badness of an unreferenced file ("big": bytes, C19), MIX spellings "name" (a root by its bare name next to its path) and "relroot" (a target
+relative to the directory above its root, from any working directory): `decorate_mix`, `names_and_relroots_apply` (C10, C15, C09).
 """
 from __future__ import annotations
 
@@ -205,10 +209,27 @@ def build_tree(tmp: Path, case: dict) -> None:
 UNLOADABLE = {1: b"\xff\xfe\x00uint8 a\n@sealed\n", 2: b"# caf\xc3", 3: None}
 
 
+# SIZE as a state of badness ("big": number of bytes, with "g": true): nothing at all, one byte, and contents around and beyond every
+# size anybody might think no definition ever has (2**20 and its neighbours, several MiB); what the bytes are does not matter
+SIZE_UNIT = b"\xff\xfe\x00 ]]] not DSDL {{{ @@@ \n"
+SIZES = [0, 1, 2, 4096, 2**16, 2**20 - 1, 2**20, 2**20 + 1, 2**20 + 4096, 2 * 2**20 + 1, 3 * 2**20, 5 * 2**20 + 17]
+
+
+def sized_garbage(size: int) -> bytes:
+    return (SIZE_UNIT * (size // len(SIZE_UNIT) + 1))[:size]
+
+
+def size_class(n: int) -> str:
+    return "0" if n == 0 else "1-2" if n <= 2 else "small" if n < 2**20 - 1 else {2**20 - 1: "2^20-1", 2**20: "2^20", 2**20 + 1: "2^20+1"}.get(n, "over-2^20" if n < 2 * 2**20 else "several-MiB")
+
+
 def write_file(tmp: Path, f: dict) -> None:
     p = tmp / file_rel(f)
     p.parent.mkdir(parents=True, exist_ok=True)
     u = f["text"].get("u")
+    if f["text"].get("big") is not None:
+        p.write_bytes(sized_garbage(int(f["text"]["big"])))
+        return
     if u:
         if UNLOADABLE[u] is None:
             p.mkdir()
@@ -350,6 +371,12 @@ ONE_SHOT_FORMS = ("gen", "iter", "map", "chain")
 def spell_path(tmp: Path, case: dict, cwd: str, d: list, how: str, typ: str, tail: typing.Optional[str] = None):
     """One spelling of directory `d` (or of the file `tail` below it): HOW x TYP of the module docstring."""
     ab = str(tmp / "/".join(d))
+    if how in ("name", "relroot"):
+        # the bare NAME of the root namespace (a root argument) / the target as a path below the directory that holds its root
+        # namespace directory, wherever the working directory is: "alpha", "alpha/x/A.1.0.dsdl"
+        assert (tail is None) == (how == "name")
+        s = d[-1] if tail is None else d[-1] + "/" + tail
+        return Path(s) if typ == "path" else s
     if how in ("abs", "slash"):
         s = ab
     elif how == "dotdot":
@@ -437,6 +464,78 @@ def mix_applies(call: dict, mix: dict) -> bool:
     return sorted(d for d in named if d not in own) == sorted(d for d in want if d not in own)
 
 
+PLAIN_DIR_HOWS = ("abs", "slash", "dotdot")
+
+
+def names_and_relroots_apply(tmp: Path, case: dict, mix: dict, cwd: str) -> bool:
+    """When do the spellings "name" (a root given by its bare NAME, next to a path of the same root) and "relroot" (a target given
+    as a path below the directory that holds its root, which need not be the working directory) designate what the call means?
+      name:    the same root is also named by a path in the same argument (the name is a second, redundant designation), and the
+               name is not at the same time a relative path to something else (nothing of that name in the working directory,
+               unless the working directory is the one that holds the root);
+      relroot: the target's root is named by a path whose last component is the root's name (not only through a symbolic link
+               with another name or as "."), no other designated root of that name holds the same relative path, no directory
+               above a root carries the name, and the path does not exist relative to the working directory (unless the
+               working directory is the one that holds the root, where it is the file itself)."""
+    call, files = case["call"], case["files"]
+    ritems = mix["roots"]["items"]
+    roots = _uniq([list(x) for x in call["roots"]])
+    for ref, how, _typ in ritems:
+        if how != "name":
+            continue
+        d = list(ref)
+        if not any(list(r2) == d and h2 != "name" for r2, h2, _ in ritems):
+            return False
+        if os.path.lexists(os.path.join(cwd, d[-1])) and Path(cwd) != tmp / "/".join(d[:-1]):
+            return False
+    have = {file_rel(f) for f in files}
+    for ref, how, _typ in mix["targets"]["items"]:
+        if how != "relroot":
+            continue
+        f = files[ref]
+        d, tail = list(f["dir"]), list(f["sub"]) + [f["fname"]]
+        if not any(list(r2) == d and h2 in PLAIN_DIR_HOWS for r2, h2, _ in ritems):
+            return False
+        for x in roots:
+            if x != d and x[-1] == d[-1] and "/".join(x + tail) in have:
+                return False
+            if any(x[:k][-1] == d[-1] and x[:k] != d for k in range(1, len(x))):
+                return False
+        if d[-1] in tmp.parts:
+            return False
+        if Path(cwd) != tmp / "/".join(d[:-1]) and os.path.lexists(os.path.join(cwd, d[-1])):
+            return False
+    return True
+
+
+def decorate_mix(mix: dict, call: dict, files: typing.List[dict]) -> None:
+    """One root namespace designated twice in different forms - by its bare NAME next to its path(s), at any position of the
+    argument, any number of times - and targets spelled relative to the directory above their root from working directories where
+    no such path exists (read_files only).  Random choices from a generator derived from the MIX itself, so that the MIX drawn by
+    `gen_mix` for a given call is the same with and without this step."""
+    if call["fn"] != "files":
+        return
+    r = random.Random("names/" + json.dumps(mix, sort_keys=True))
+    x = r.random()
+    if x >= 0.4:
+        return
+    rs, ts = mix["roots"], mix["targets"]
+    if rs["form"] not in ("single", "none"):
+        named = _uniq([list(it[0]) for it in rs["items"]])
+        for _ in range(r.choice([1, 1, 2])):
+            d = r.choice(named)
+            rs["items"].insert(r.randint(0, len(rs["items"])), [d, "name", r.choice(["str", "str", "path"])])
+        if r.random() < 0.5:   # make sure that a path of the kind the name can be welded onto is there as well
+            d = r.choice(named)
+            rs["items"].insert(r.randint(0, len(rs["items"])), [d, r.choice(PLAIN_DIR_HOWS), r.choice(["str", "path"])])
+    if x < 0.3:
+        for it in ts["items"]:
+            if r.random() < 0.8:
+                it[1] = "relroot"
+        if r.random() < 0.7:
+            mix["cwd"] = r.choice([["elsewhere"], ["elsewhere"], [], ["links"]])
+
+
 def spell_mix(tmp: Path, case: dict, mix: dict) -> typing.Optional[typing.Tuple[str, tuple, dict, str]]:
     call = case["call"]
     if not mix_applies(call, mix):
@@ -461,6 +560,8 @@ def spell_mix(tmp: Path, case: dict, mix: dict) -> typing.Optional[typing.Tuple[
                 items.append(spell_path(tmp, case, cwd, list(f["dir"]), how, typ, "/".join(list(f["sub"]) + [f["fname"]])))
         return make_form(items, a["form"])
 
+    if call["fn"] == "files" and not names_and_relroots_apply(tmp, case, mix, cwd):
+        return None
     ls = arg(mix["lookups"])
     if ls is KeyError:
         return None
@@ -523,6 +624,8 @@ def gen_mix(rng: random.Random, call: dict, files: typing.List[dict], cwd: typin
     mix["targets"] = build(tix, tix, target_hows or FILE_HOWS, False)
     mix["roots"] = build(roots, roots, DIR_HOWS, False)
     mix["lookups"] = build(lks, _uniq(lks + roots), DIR_HOWS, True)
+    if cwd is None and target_hows is None:
+        decorate_mix(mix, call, files)
     return mix
 
 
@@ -576,6 +679,13 @@ def mix_features(call: dict, v: dict) -> typing.Iterable[str]:
         refs = [json.dumps(it[0]) for it in x["items"]]
         if len(set(refs)) < len(refs):
             yield "mix:%s:element-repeated-in-other-spelling" % a
+        if a == "roots" and any(it[1] == "name" for it in x["items"]):
+            k = next(j for j, it in enumerate(x["items"]) if it[1] == "name")
+            paths = [j for j, it in enumerate(x["items"]) if it[1] != "name" and list(it[0]) == list(x["items"][k][0])]
+            yield "mix:root-by-bare-name-and-by-path:name-" + ("first" if paths and k < min(paths) else "last" if paths and k > max(paths) else "between")
+            if any(it[1] == "relroot" for it in v["targets"]["items"]):
+                yield "mix:root-by-bare-name-and-by-path+target-relative-to-the-directory-above-its-root:cwd-" + (
+                    "is-that-directory" if any(list(r[:-1]) == list(cwd) for r in own) else "elsewhere")
         if a == "lookups":
             al = [it for it in x["items"] if list(it[0]) in own]
             if al:
@@ -624,6 +734,21 @@ def mix_universe(call: dict, files: typing.List[dict]) -> typing.Dict[str, typin
                 m = plain()
                 m["root"] = [how, typ]
                 out.setdefault("list", []).append(m)
+    else:
+        # every root designated twice - by its bare name and by a path - in every order, also three times; the targets in every
+        # spelling, also relative to the directory above their root from working directories where no such path exists
+        for thow in FILE_HOWS + ["relroot"]:
+            for cwd in ([[], ["elsewhere"], own[0][:-1]] if thow in ("relroot", "rel") else [["elsewhere"]]):
+                for k, order in enumerate(("name-first", "name-last", "name-path-name", "path-name-path")):
+                    m = plain()
+                    m["cwd"] = list(cwd)
+                    m["targets"]["items"] = [[e, thow, ("str", "path")[(k + j) % 2]] for j, e in enumerate(args["targets"])]
+                    items: typing.List[list] = []
+                    for j, e in enumerate(own):
+                        nm, pa = [e, "name", ("str", "path")[(k + j) % 2]], [e, PLAIN_DIR_HOWS[(k + j) % 3], ("path", "str")[j % 2]]
+                        items += {"name-first": [nm, pa], "name-last": [pa, nm], "name-path-name": [nm, pa, nm], "path-name-path": [pa, nm, [e, "abs", "str"]]}[order]
+                    m["roots"] = {"form": ("list", "tuple", "gen", "list")[k], "items": items}
+                    out.setdefault("names+paths", []).append(m)
     return out
 
 
@@ -2494,7 +2619,182 @@ def gen_perturb(rng: random.Random, case: dict) -> None:
         if any(file_rel(g) == file_rel(new) for j, g in enumerate(files) if j != idx):
             new["dir"], new["sub"], new["fname"] = f["dir"], f["sub"], f["fname"]
             t["g"] = True
+    # SIZE as a state of badness (2% of the cases, one such file per case): drawn from a generator of its own, so that the
+    # stream of cases is the same with and without it
+    r2 = random.Random("size/%s/%d/%d" % (case.get("enum_seed", 0), idx, len(files)))
+    if r2.random() < 0.02 and idx in outside:
+        new = {"dir": f["dir"], "sub": f["sub"], "fname": f["fname"], "text": {"g": True, "gk": 0, "big": r2.choice(SIZES), "secs": [{"stmts": [], "mode": ["sealed"]}]}}
     case["perturb"] = {"idx": idx, "file": new}
+
+
+# ------------------------------------------------------------------------------------------------ version numbers beyond their range
+
+OOR_LEGAL = [(1, 0), (1, 0), (1, 1), (2, 0), (0, 1), (2, 1), (0, 255), (255, 0), (255, 255), (1, 255), (3, 7), (16, 0), (0, 16), (10, 10)]
+
+
+def fold_aliases(M: int, m: int) -> typing.List[tuple]:
+    """Version pairs with a number BEYOND the legal range 0..255 that some lossy encoding of (major, minor) into one number cannot
+    tell from the legal pair (M, m): major * 256 + minor and (major << 8) | minor (x.256+k = (x+1).k, 0.(256 M + m) = M.m), radix 255
+    / 1000, each number cut to its low byte or its low 16 / 32 bits.  The grammar of a reference and the shape of a file name admit
+    any decimal numeral; only a definition that is READ must have its numbers in range."""
+    out = [(M, m + 256), (M + 256, m), (M + 256, m + 256), (M, m + 512), (M + 512, m), (M, m + 65536), (M + 65536, m), (M, m + 2**32), (M + 256, m + 65536)]
+    if M >= 1:
+        out += [(M - 1, m + 256), (0, M * 256 + m), (M, m + 256 * M), (M - 1, m + 255), (0, M * 255 + m), (0, M * 1000 + m), (M - 1, m + 1000)]
+    if M >= 2:
+        out += [(M - 2, m + 512), (1, (M - 1) * 256 + m)]
+    return [v for v in _uniq(out) if max(v) > 255 and v != (M, m)]
+
+
+OOR_UNRELATED = [(256, 0), (0, 256), (300, 300), (0, 1000), (999, 1), (65536, 0), (0, 65535), (256, 256)]
+
+
+def gen_outofrange(rng: random.Random, prop: str) -> dict:
+    """A family of legal versions of one name, and version numbers beyond the legal range (256, 257, 511, 512, 65536, 2**32, numbers
+    whose low byte / folded value equals an existing version - `fold_aliases`):
+      in REFERENCES (C09): `Foo.0.256` names a version that cannot exist; it is missing, whatever Foo.1.0 there is;
+      in the FILE NAMES of definitions nobody refers to (C19, C09): `Dep.0.256.dsdl` next to `Dep.1.0.dsdl` (or next to a dangling
+      reference to Dep.1.0) is invalid only when it is read, and nobody reads it; its text is in any state of badness.
+    For C19 the case carries a replacement: an unreferenced legal file becomes such a file (or, rarely, a file of some SIZE)."""
+    A = ["w0", "alpha"]
+    B = [rng.choice(["w0", "w1"]), rng.choice(["lib", "beta", "Dep"])]
+    fn = rng.choice(["ns", "files", "files"])
+    D = B if rng.random() < 0.7 else A
+    sub = list(rng.choice([[], [], ["x"], ["geo", "nav"]]))
+    short = rng.choice(["Dep", "Foo", "Node", "m_t", "V"])
+    name = ".".join([D[-1]] + sub + [short])
+    vs = _uniq(rng.sample(OOR_LEGAL, rng.randint(1, 4)))
+    files: typing.List[dict] = []
+    for k, v in enumerate(vs):
+        files.append({"dir": list(D), "sub": sub, "fname": fname_of(short, v[0], v[1], None, "uavcan" if rng.random() < 0.1 else "dsdl"),
+                      "text": mk_text([["prim", 8 * (k + 1)], ["print", 100 + k]], ["sealed"])})
+    absent = [v for v in OOR_LEGAL if v not in vs]
+    written: typing.List[tuple] = []
+    users: typing.List[int] = []
+    clean_all = prop == "C19" or rng.random() < 0.35
+    for k in range(rng.randint(1, 3)):
+        stmts: typing.List[list] = []
+        clean = clean_all or rng.random() < 0.4
+        for _ in range(rng.choice([1, 1, 2, 3])):
+            x = rng.random()
+            if clean or x < 0.45:
+                v = rng.choice(vs)
+                written.append(v)
+            elif x < 0.85:
+                v = rng.choice(fold_aliases(*rng.choice(vs)))
+            elif x < 0.92:
+                v = rng.choice(OOR_UNRELATED)
+            else:
+                v = rng.choice(absent)
+                written.append(v)
+            nm = short if (D == A and not sub and rng.random() < 0.5) else name
+            stmts.append(["ref", nm, v[0], v[1]])
+        if prop == "C19" and rng.random() < 0.25:
+            v = rng.choice(absent)    # a dangling reference to a legal version: the error must stay what it is
+            written.append(v)
+            stmts.append(["ref", name, v[0], v[1]])
+        stmts.insert(rng.randint(0, len(stmts)), ["prim", rng.choice([8, 16])])
+        files.append({"dir": list(A), "sub": [], "fname": fname_of("User%d" % k, 1, k), "text": mk_text(stmts, ["sealed"])})
+        users.append(len(files) - 1)
+    # definitions nobody refers to, with numbers beyond the range in their file names (never among the targets)
+    may_stand_by = fn == "files" or D != A
+    taken = {f["fname"].rsplit(".", 1)[0] for f in files if f["dir"] == D and f["sub"] == sub}
+    bystanders: typing.List[int] = []
+
+    def alias_file() -> typing.Optional[dict]:
+        base = rng.choice(written) if written and rng.random() < 0.85 else rng.choice(vs)
+        v = rng.choice(fold_aliases(*base)) if rng.random() < 0.9 else rng.choice(OOR_UNRELATED)
+        fnm = fname_of(short, v[0], v[1], rng.choice([None, None, None, 6200]), rng.choice(["dsdl", "dsdl", "uavcan"]))
+        if "%s.%d.%d" % (short, v[0], v[1]) in taken:
+            return None
+        taken.add("%s.%d.%d" % (short, v[0], v[1]))
+        t = mk_text([["prim", 64], ["print", 900]], ["sealed"])
+        if rng.random() < 0.75:
+            spoil_text(rng, t, 0, True)
+        return {"dir": list(D), "sub": sub, "fname": fnm, "text": t}
+
+    if may_stand_by and prop != "C19":
+        for _ in range(rng.choice([0, 1, 1, 2])):
+            g = alias_file()
+            if g is not None:
+                files.append(g)
+                bystanders.append(len(files) - 1)
+    if fn == "ns":
+        call = {"fn": "ns", "root": list(A), "lookups": [list(B)] if (D == B or rng.random() < 0.5) else [], "allow_collision": True, "allow_unreg": False}
+    else:
+        tix = list(users)
+        fam = [i for i, f in enumerate(files) if f["dir"] == D and i not in users and i not in bystanders]
+        if rng.random() < 0.3:
+            tix.append(rng.choice(fam))
+        rng.shuffle(tix)
+        roots = _uniq([list(files[i]["dir"]) for i in tix])
+        lks = []
+        if D not in roots:
+            (roots if rng.random() < 0.5 else lks).append(list(D))
+        rng.shuffle(roots)
+        call = {"fn": "files", "targets": tix, "roots": roots, "lookups": lks, "allow_unreg": False}
+    case = {"files": files, "call": call, "enum_seed": rng.randrange(10**6)}
+    if prop == "C19":
+        case["variants"] = []
+        if may_stand_by:
+            # an unreferenced legal file of the family's directory ...
+            v0 = rng.choice([v for v in [(3, 9), (4, 0), (0, 7), (9, 9)] if v not in vs and v not in written])
+            files.append({"dir": list(D), "sub": sub, "fname": fname_of(short if rng.random() < 0.7 else "Bystander", v0[0], v0[1]), "text": mk_text([["prim", 8]], ["sealed"])})
+            new = alias_file()   # ... becomes one whose name carries numbers beyond the range
+            if new is not None:
+                if rng.random() < 0.04:
+                    new = {"dir": list(D), "sub": sub, "fname": files[-1]["fname"], "text": {"g": True, "gk": 0, "big": rng.choice(SIZES), "secs": [{"stmts": [], "mode": ["sealed"]}]}}
+                case["perturb"] = {"idx": len(files) - 1, "file": new}
+        if "perturb" not in case:
+            gen_perturb(rng, case)
+    else:
+        add_variants(rng, case, 1)
+    return case
+
+
+def outofrange_features(case: dict) -> typing.Iterable[str]:
+    yield from sorted(set(_outofrange_features(case)))
+
+
+def _outofrange_features(case: dict) -> typing.Iterable[str]:
+    allf = list(case["files"]) + ([case["perturb"]["file"]] if case.get("perturb") else [])
+    defs = [d for d in (SDef(i, f) for i, f in enumerate(allf) if is_def_file(f["fname"])) if d.wellformed]
+    legal = {}
+    for d in defs:
+        if d.major <= 255 and d.minor <= 255:
+            legal.setdefault(d.name.lower(), set()).add((d.major, d.minor))
+
+    def rel(nm, v):
+        ex = legal.get(nm.lower(), set())
+        kinds = []
+        for (M, m) in ex:
+            if v in fold_aliases(M, m):
+                if M * 256 + m == v[0] * 256 + v[1]:
+                    kinds.append("equal-under-major*256+minor")
+                elif (M << 8) | m == (v[0] << 8) | v[1]:
+                    kinds.append("equal-under-shift-or")
+                elif (M & 255, m & 255) == (v[0] & 255, v[1] & 255):
+                    kinds.append("equal-low-bytes")
+                else:
+                    kinds.append("equal-under-another-fold")
+        return kinds or ["aliases-no-existing-version"]
+
+    for d in defs:
+        if d.text.get("big") is not None:
+            yield "text:size:" + size_class(int(d.text["big"]))
+        if max(d.major, d.minor) > 255:
+            who = "replacement" if case.get("perturb") and d.idx == len(case["files"]) else "file"
+            for k in rel(d.name, (d.major, d.minor)):
+                yield "version-beyond-255:in-a-%s-name:%s" % (who, k)
+            yield "version-beyond-255:in-a-%s-name:%s" % (who, "garbage" if d.text.get("g") else "text-parses")
+        if d.text.get("g"):
+            continue
+        for sec in d.text["secs"]:
+            for st in sec["stmts"]:
+                if st[0] == "ref" and max(st[2], st[3]) > 255:
+                    full = st[1] if "." in st[1] else d.ns + "." + st[1]
+                    for k in rel(full, (st[2], st[3])):
+                        yield "version-beyond-255:in-a-reference:%s" % k
+                    yield "version-beyond-255:in-a-reference:" + ("65536-or-more" if max(st[2], st[3]) >= 65536 else "256-511" if max(st[2], st[3]) < 512 else "512-65535")
 
 
 MENTION_HOWS = ["line", "doc", "trail", "trail", "trail", "str", "str", "strcmp"]
@@ -2705,10 +3005,16 @@ class NsSuite(common.Suite):
                 if x >= 0.9:
                     out.append(gen_mentions(rng, prop))     # (brings its own replacement)
                     continue
+                if 0.62 <= x < 0.68:
+                    out.append(gen_outofrange(rng, prop))   # (brings its own replacement)
+                    continue
                 c = gen_graph(rng, prop) if x < 0.68 else gen_versions(rng, prop) if x < 0.79 else gen_twins(rng, prop)
                 gen_perturb(rng, c)
                 c["variants"] = []
             else:
+                if 0.66 <= x < 0.72:
+                    out.append(gen_outofrange(rng, prop))   # (brings its own spellings)
+                    continue
                 c = gen_graph(rng, prop) if x < 0.72 else gen_twins(rng, prop) if x < 0.88 else gen_samedir_twins(rng, prop)
                 if x < 0.72 and rng.random() < 0.08:
                     gen_history(rng, c)
@@ -2770,6 +3076,23 @@ class NsSuite(common.Suite):
                       F(L, ["GEO"], fname_of("P", *va), S(["prim", 8])), F(L, ["geo"], fname_of("P", *vb), S(["prim", 16])), F(L, [], "Zed.1.0.dsdl", S()), F(L, ["GEO"], "Q.1.0.dsdl", S())]
                 out.append(ns(fs, lookups=[L], variants=["link"]))
                 out.append(fl(fs, [0], [A], [L], variants=("dup", "linkroots")))
+        if prop == "C09":
+            # version numbers beyond 255 in references: a version that cannot exist is missing, whatever legal version a lossy
+            # encoding of the pair would confuse it with; such numbers in the names of files nobody refers to change nothing
+            L = ["w1", "lib"]
+            fam = [(0, 1), (1, 0), (1, 1), (2, 0), (255, 255)]
+            for D, lk in ((A, []), (L, [L])):
+                nm = D[-1] + ".Foo"
+                base_files = [F(D, [], fname_of("Foo", *v), S(["prim", 8 * (k + 1)])) for k, v in enumerate(fam)]
+                refs = [(0, 256), (0, 257), (1, 256), (0, 512), (0, 511), (256, 0), (257, 1), (1, 65536), (0, 2**32 + 1), (254, 511), (0, 65535), (1, 1)]
+                for k, v in enumerate(refs):
+                    fs = [F(A, [], "User.1.0.dsdl", S(["ref", "Foo" if (D == A and k % 2) else nm, v[0], v[1]]))] + base_files
+                    out.append(ns(fs, lookups=lk, variants=["rel"]) if k % 3 else fl(fs, [0], _uniq([A, D]), variants=("dup",)))
+                if D != A:
+                    for k, v in enumerate([(0, 256), (0, 257), (1, 256), (257, 0), (0, 512), (1, 65536)]):
+                        fs = [F(A, [], "User.1.0.dsdl", S(["ref", nm, 1, 0], ["ref", nm, 1, 1], ["ref", nm, 2, 0]))] + base_files
+                        fs.append(F(D, [], fname_of("Foo", *v), [S(["prim", 64]), mk_text([], ["sealed"], g=True), S(["bad", 0])][k % 3]))
+                        out.append(ns(fs, lookups=lk, variants=["link"]) if k % 2 else fl(fs, [0], [A], [D], variants=("dup",)))
         if prop in ("C09", "C10", "C15"):
             # every path-like argument in every admissible form x every spelling, one argument at a time (small scope, exhaustive)
             g_ab = [F(A, [], "A.1.0.dsdl", S(["ref", "B", 1, 0], ["ref", "beta.D", 2, 1])), F(A, ["x"], "B.1.0.dsdl", S(["ref", "alpha.B", 1, 0], ["print", 1])),
@@ -2914,6 +3237,25 @@ class NsSuite(common.Suite):
                 c = fl([F(A, [], "User.1.0.dsdl", S(["ref", "ALPHA.x.Helper", 1, 0])), F(["w1", "ALPHA"], ["X"], "Helper.1.0.dsdl", S(["prim", 8]))], [0], [A], [["w1", "ALPHA"]], variants=())
                 c["perturb"] = {"idx": 1, "file": F(["w1", "ALPHA"], ["X"], "Helper.1.0.dsdl", t)}
                 out.append(c)
+            # version numbers beyond 255 in the NAME of a file nobody refers to, equal to a referenced version under a lossy encoding
+            # of the pair, the referenced version present / absent; and every SIZE of an unreferenced file (lookup directory, the
+            # target's own root namespace)
+            BIG = lambda n: {"g": True, "gk": 0, "big": n, "secs": [{"stmts": [], "mode": ["sealed"]}]}  # noqa: E731
+            for present in (True, False):
+                for k, v in enumerate([(0, 256), (1, 256), (0, 512), (257, 0), (1, 65536), (0, 2**32 + 256), (0, 511)]):
+                    for t in (bad[0], bad[4], S(["prim", 64], ["print", 9])):
+                        fs = [F(A, [], "User.1.0.dsdl", S(["ref", "beta.Dep", 1, 0], ["prim", 8])), F(B, [], "Other.3.0.dsdl", S())]
+                        if present:
+                            fs.append(F(B, [], "Dep.1.0.dsdl", S(["prim", 16])))
+                        c = ns(fs, lookups=[B], variants=[]) if k % 2 else fl(fs, [0], [A], [B], variants=())
+                        c["perturb"] = {"idx": 1, "file": F(B, [], fname_of("Dep", *v), t)}
+                        out.append(c)
+            for n in (0, 1, 2**20 - 1, 2**20, 2**20 + 1, 3 * 2**20 + 5):
+                fs = [F(A, [], "User.1.0.dsdl", S(["ref", "beta.Dep", 1, 0], ["prim", 8])), F(B, [], "Dep.1.0.dsdl", S(["prim", 16])), F(B, ["x"], "Bystander.1.0.dsdl", S()),
+                      F(A, [], "Sibling.1.0.dsdl", S())]
+                for c, i in ((ns(fs, lookups=[B], variants=[]), 2), (fl(fs, [0], [A], [B], variants=()), 2), (fl(fs, [0], [A, B], variants=()), 3)):
+                    c["perturb"] = {"idx": i, "file": dict(fs[i], text=BIG(n))}
+                    out.append(c)
             # a NAMESAKE of a target that nobody refers to (a port-ID added, the other extension, a second directory of the same
             # root namespace name), a sibling version, the same port-ID - in every state of badness
             W1 = ["w1", "alpha"]
@@ -3140,7 +3482,7 @@ class NsSuite(common.Suite):
         if exp2["lookup_malformed"] and b["res"] == "invalid" and impl.get("soft_cls2") == "FileNameFormatError":
             return None
         if a != b:
-            return "C19/outside-definition-changed-outcome: file %s -> %s: before %s after %s" % (file_rel(case["files"][i]), file_rel(p["file"]), _s(a), _s(b))
+            return "C19/outside-definition-changed-outcome: file %s -> %s%s: before %s after %s" % (file_rel(case["files"][i]), file_rel(p["file"]), "" if p["file"]["text"].get("big") is None else " (%d bytes of garbage)" % p["file"]["text"]["big"], _s(a), _s(b))
         if a["res"] != "ok" and (impl.get("soft_cls"), impl.get("soft_path")) != (impl.get("soft_cls2"), impl.get("soft_path2")):
             return "C19/outside-definition-changed-error: before %s at %s, after %s at %s" % (impl.get("soft_cls"), impl.get("soft_path"), impl.get("soft_cls2"), impl.get("soft_path2"))
         return None
@@ -3325,6 +3667,7 @@ class NsSuite(common.Suite):
         yield from rollover_features(case)
         yield from mention_features(case)
         yield from version_features(case)
+        yield from outofrange_features(case)
         if call["fn"] == "files":
             rn = [r[-1] for r in call["roots"]]
             if any(c in rn for i in call["targets"] for c in case["files"][i]["sub"]):
